@@ -11,31 +11,11 @@ theorem mem_filter_ne {L : List Tx} {t : Tx} {h : Nat} :
 
 theorem removeConflictStep_other (id : Nat) (c : Nat → Option (List Nat)) (h h' : Nat) (hne : h' ≠ h) :
     removeConflictStep id c h h' = c h' := by
-  match hl : c h with
-  | none => simp [removeConflictStep, hl]
-  | some [] => simp [removeConflictStep, hl]
-  | some [x] => simp [removeConflictStep, hl, upd_other _ _ hne]
-  | some (x :: y :: r) =>
-    by_cases hi : id ∈ x :: y :: r
-    · simp only [removeConflictStep, hl, hi, if_true]; exact upd_other _ _ hne
-    · simp only [removeConflictStep, hl, hi, if_false]
-
-/-- the entry of `h` itself after the loop body for `h` -/
-def stepEntry (id : Nat) : Option (List Nat) → Option (List Nat)
-  | some [_] => none
-  | some l => if id ∈ l then some (l.erase id) else some l
-  | none => none
+  simp [removeConflictStep, hne]
 
 theorem removeConflictStep_same (id : Nat) (c : Nat → Option (List Nat)) (h : Nat) :
     removeConflictStep id c h h = stepEntry id (c h) := by
-  match hl : c h with
-  | none => simp [removeConflictStep, stepEntry, hl]
-  | some [] => simp [removeConflictStep, stepEntry, hl]
-  | some [x] => simp [removeConflictStep, stepEntry, hl]
-  | some (x :: y :: r) =>
-    by_cases hi : id ∈ x :: y :: r
-    · simp only [removeConflictStep, stepEntry, hl, hi, if_true, upd_same]
-    · simp only [removeConflictStep, stepEntry, hl, hi, if_false]
+  simp [removeConflictStep]
 
 theorem foldl_removeConflict (id : Nat) : ∀ (hs : List Nat) (c : Nat → Option (List Nat)) (h' : Nat), hs.Nodup →
     (hs.foldl (removeConflictStep id) c) h' = if h' ∈ hs then stepEntry id (c h') else c h' := by
@@ -135,13 +115,13 @@ theorem feesOk_remove {U : Tx → Prop} {L : List Tx} {f : Payer → Option Fee}
         rw [this]; omega
       · have : subW 0 0 = 0 := by rw [subW_eq 0 0 (Nat.le_refl _) (by unfold U256; exact Nat.two_pow_pos _)]
         rw [this]; exact Nat.le_refl _
-      · unfold U256; exact Nat.two_pow_pos _
+      · exact H256_pos
     | some fe =>
       rw [hfq] at hq; simp only [FeeEntry] at hq
       obtain ⟨h1, h2, h3⟩ := hq
       simp only [Option.getD_some]
       have hle : itm.fee ≤ fe.feeSum := by omega
-      rw [subW_eq _ _ hle (by omega)]
+      rw [subW_eq _ _ hle (by have := two_H256; omega)]
       refine ⟨by omega, by omega, h3⟩
   · rw [upd_other _ _ e]
     have hne : ¬ payerOf itm = q := fun x => e x.symm
